@@ -87,3 +87,10 @@ func verifObjIs(x []byte) bool                                 { panic("intrinsi
 func verifObjHas(x []byte, p string) bool                      { panic("intrinsic") }
 func verifObjGet(x []byte, p string) []byte                    { panic("intrinsic") }
 func verifObjWellFormed(x []byte) bool                         { panic("intrinsic") }
+
+func verifMapEmits(d verifDoc) bool    { panic("intrinsic") } // the (uninterpreted) map function emits a row for this document state
+func verifMapKey(d verifDoc) []byte    { panic("intrinsic") }
+func verifMapValue(d verifDoc) []byte  { panic("intrinsic") }
+func verifCollLess(a, b []byte) bool   { panic("intrinsic") } // JSON collation order (uninterpreted)
+func verifAnyJSON(v any) []byte        { panic("intrinsic") }
+func verifSymOnly()                    { panic("intrinsic") } // this harness has no native counterpart
